@@ -27,6 +27,12 @@ def arr(x):
 def build(c, scale=1.0):
     f = arr(c["f"])
     E = arr(c["E"]) * scale
+    if c.get("lead"):
+        # the spectrum as the constructors return it by default: with a leading time dimension (of length one)
+        t = np.datetime64("2022-01-01T00:00:00")
+        if c["kind"] == "1d":
+            return create_1d_spectrum(f, E[None, :], t, 0.0, 0.0)
+        return create_2d_spectrum(f, arr(c["dirs"]), E[None, :, :], t, 0.0, 0.0)
     if c["kind"] == "1d":
         return create_1d_spectrum(f, E, None, None, None, dims=("frequency",))
     d = arr(c["dirs"])
